@@ -246,6 +246,10 @@ def captures_agree(got: dict, exp: dict) -> str | None:
             if not isinstance(g, tuple) or len(g) != len(e.elems) or any(a is not b for a, b in zip(g, e.elems)):
                 return f"capture {k!r}: tail slice differs"
         elif g is not e:
+            # (a computed attribute such as the `children` convenience property yields a fresh list on every access:
+            # such a capture is the same value when its elements are the same objects)
+            if isinstance(e, list) and isinstance(g, list) and len(e) == len(g) and all(a is b for a, b in zip(g, e)):
+                continue
             return f"capture {k!r} is not the very object matched"
     return None
 
